@@ -26,4 +26,5 @@ uint8_t *read_file(const char *path, size_t *len);
 struct obj *getobj(const char *ids, int kind);
 struct obj *newobj(const char *ids, int kind);
 int ops_table(char **args, int na);
+int ops_codec(char **args, int na);
 #endif
